@@ -420,7 +420,7 @@ func c08R8(c *Ctx) {
 		ok := len(calls) == 1 && len(fn.Blocks) > 0 && calls[0].Block() == fn.Blocks[0]
 		if ok {
 			// applied to the batch parameter
-			if p, isP := calls[0].Common().Args[0].(*ssa.Parameter); !isP || p.Name() != "batch" {
+			if calls[0].Common().Args[0] != argParam(fn, 1) {
 				ok = false
 			}
 		}
